@@ -657,6 +657,8 @@ class Gen:
         skip = ORIENT + ("pos",) if use_fromto else ()
         if not use_fromto and r.random() < 0.7:
             a["pos"] = self.v2s(self.vec(3, -0.2, 0.2))
+        if t == "mesh":
+            skip = tuple(skip) + ("shellinertia",)      # not written for mesh geoms: separate probe (meshshell)
         self.decorate("geom", a, skip=skip + ("fluidshape", "fluidcoef") if r.random() < 0.8 else skip)
         if "fluidcoef" in a and "fluidshape" not in a:
             a["fluidshape"] = "ellipsoid"
